@@ -54,6 +54,8 @@ CLAIMS = {
          "Linux separator semantics; no symbolic links planted; recorder file names judged at openDiskFile"),
  "C20": ("model_checking", "Recorder.tla / RecOps.tla (per packet: written, cache-only, held and released inside the reorder window, lost, duplicated; Write's gap detection and fetch as Layer I; 'only complete sent frames, each once, in order; nothing lost => every complete frame from the first complete keyframe on' as Layer P) enumerates EVERY history of a 6-packet video stream and a 6-frame audio stream with design checks; every enumerated history and seeded long ones (to 900 packets, seqno and 32-bit timestamp wrap, audio+video with sender reports, stop vs departure) run on the REAL diskwriter.Client via PushConn with a fake publisher and cache; the WebM files are parsed back with ebml-go and Trace_Rec replays the logged operations through RecOps and judges R1-R6; K1 (dependency) is matched by its signature only.",
          "VP8/Opus payloads only; shared origin judged only with sender reports; keyframe flag not judged"),
+ "C07": ("model_checking", "Streams.tla (one action per client stimulus -- join, leave, request, requestStream, publish with 1-3 tracks and optional replace, unpublish, abort -- with the server's reaction from pushConnNow/pushDownConn/requestedTracks/closeDownConn as Layer I) folds every reaction through StrMonitor (offers only to joined members of the publisher's group, with the publisher's id/username/label and exactly the tracks the request selects; closes only for ended / unrequested / aborted streams; another client's abort or request touches nobody else; at quiescence offered <=> requested and nothing held of an ended stream); TLC checks exhaustively for 3 clients x 2 groups x 2 stream ids that the monitor never objects to the design and that the design meets the quiescent equalities; TLC-simulated stimulus sequences and hand-written behaviours (every way a stream can end, late joiners, per-stream requests, abort, a non-answering subscriber, another group) run against the REAL server with real pion publishers and subscribers, judged by the same monitor (Trace_Streams).",
+         "sequential driver with quiescence (statistics stable + pings) after every stimulus; partial offers tolerated until a publication is complete"),
 }
 REASON_DEFAULT = "check under construction (not yet registered); see DESIGN.md section 5"
 NA = {}
